@@ -275,5 +275,63 @@ class Opaque(Ty):
         return _sort_cache[k]
 
 
+class Enum(Ty):
+    """Member of a python `enum.Enum` class ("module:Qual.Name"): a finite enumeration sort, one constant per member.
+    `.value` / `.name` are ite-chains over the members; IntEnum-typed values coerce to INT where a number is needed."""
+
+    def __init__(self, path: str):
+        self.path = path
+        self.key = ("Enum", path)
+
+    def name(self):
+        return "Enum[" + self.path.split(":")[-1] + "]"
+
+    def pycls(self):
+        import importlib
+
+        mod, qn = self.path.split(":")
+        o = importlib.import_module(mod)
+        for part in qn.split("."):
+            o = getattr(o, part)
+        return o
+
+    def members(self):
+        return list(self.pycls())
+
+    def sort(self):
+        k = self.key
+        if k not in _sort_cache:
+            nm = "Enum_" + self.path.replace(":", "_").replace(".", "_")
+            srt, consts = z3.EnumSort(nm, [m.name for m in self.members()])
+            srt.consts = consts
+            _sort_cache[k] = srt
+        return _sort_cache[k]
+
+    def const(self, member):
+        ms = self.members()
+        return self.sort().consts[ms.index(member)]
+
+    def value_type(self):
+        vs = {type(m.value) for m in self.members()}
+        if vs <= {int, bool}:
+            return INT
+        if vs == {str}:
+            return STR
+        return None
+
+    def chain(self, term, f):
+        """ite over the members: f(member) -> z3 term"""
+        ms = self.members()
+        r = f(ms[-1])
+        for m in reversed(ms[:-1]):
+            r = z3.If(term == self.const(m), f(m), r)
+        return r
+
+
+def enum_type_of(member) -> "Enum":
+    c = type(member)
+    return Enum(f"{c.__module__}:{c.__qualname__}")
+
+
 def is_num(t: Ty) -> bool:
     return t == INT or t == REAL
